@@ -985,10 +985,29 @@ class CDSInterval(AbstractFeatureInterval):
         Returns:
             A new :class:`CDSInterval` that has been merged.
         """
+        if self._is_on_seq_chunk():
+            return self._merged_on_seq_chunk(self.chromosome_location.optimize_blocks())
         new_loc = self.chunk_relative_location.optimize_blocks()
         first_frame = next(self._frame_iter())
         frames = CDSInterval.construct_frames_from_location(new_loc, first_frame)
         return CDSInterval.from_location(new_loc, frames)
+
+    def _is_on_seq_chunk(self) -> bool:
+        """Was this CDS built on a sequence chunk (whether or not any of its bases lie on the chunk)?"""
+        parent = self._parent_or_seq_chunk_parent
+        return parent is not None and parent.has_ancestor_of_type(SequenceType.SEQUENCE_CHUNK)
+
+    def _merged_on_seq_chunk(self, new_loc: Location) -> "CDSInterval":
+        """The blocks were merged in chromosome coordinates; the new CDS is placed on the sequence chunk this one is on
+        (``from_location`` does not take chunk-relative locations)."""
+        frames = CDSInterval.construct_frames_from_location(new_loc, next(self._frame_iter(False)))
+        return CDSInterval(
+            cds_starts=[x.start for x in new_loc.blocks],
+            cds_ends=[x.end for x in new_loc.blocks],
+            strand=new_loc.strand,
+            frames_or_phases=frames,
+            parent_or_seq_chunk_parent=self._parent_or_seq_chunk_parent,
+        )
 
     def optimize_and_combine_blocks(self) -> "CDSInterval":
         """
@@ -1000,6 +1019,11 @@ class CDSInterval(AbstractFeatureInterval):
         Returns:
             A new :class:`CDSInterval` that has been merged.
         """
+        if self._is_on_seq_chunk():
+            loc = self.chromosome_location
+            return self._merged_on_seq_chunk(
+                loc.optimize_and_combine_blocks() if isinstance(loc, CompoundInterval) else loc
+            )
         if isinstance(self.chunk_relative_location, CompoundInterval):
             new_loc = self.chunk_relative_location.optimize_and_combine_blocks()
         else:
